@@ -466,10 +466,27 @@ func authPredicate(f *family, label string, mutated []byte, goOut string) string
 }
 
 func mutationCases(ctx *Ctx, stream string, f *family, muts []mutation, emit func(Case)) {
-	for _, m := range muts {
+	for mi, m := range muts {
 		m := m
 		line := f.openLine(m.msg)
 		out := goExec(line)
+		// the same bytes through another entry-point form (all-at-once, armored
+		// all-at-once, armored stream): same verdict, nothing released on error
+		// by the all-at-once forms
+		if strings.HasPrefix(line, "enc.open ") || strings.HasPrefix(line, "sc.open ") || strings.HasPrefix(line, "sig.verify ") {
+			ep := []string{"all", "arm", "armstream"}[mi%3]
+			l2 := line + " ep=" + ep
+			o2 := goExec(l2)
+			lbl2 := m.label
+			emit(Case{Stream: stream + ".forms", Line: l2, GoOut: o2, Cmp: resCmp, Fallback: fallbackEP(line, ep),
+				Branch: fmt.Sprintf("%s.v%d/%s/%s", f.mode, f.major, ep, resClass(o2)),
+				Direct: func() string {
+					if ep != "armstream" && resClass(o2) != "ok" && len(resReleased(o2)) != 0 {
+						return fmt.Sprintf("an all-at-once entry point (%s) returned bytes together with an error: %s", ep, trunc(l2, 600))
+					}
+					return authPredicate(f, lbl2+"/"+ep, m.msg, o2)
+				}})
+		}
 		lbl := m.label
 		if i := strings.IndexAny(lbl, "0123456789"); i > 0 && (lbl[0] == 'p' || lbl[0] == 'f') {
 			lbl = lbl[:1] + lbl[strings.Index(lbl, "."):]
